@@ -9,6 +9,7 @@
        it runs, up to the offset (restorer state machine). *)
 From Coq Require Import List String ZArith NArith Bool Lia.
 Import ListNotations.
+From DV Require Import Gen.RestoreSrc.
 From DV Require Import Model.Tree Model.Tables Model.Link Model.Restore Model.Clone
      Proofs.LinkProofs Proofs.LinkChunk Proofs.LinkLocal Proofs.LinkOrder Proofs.RestoreProofs Proofs.RelocProofs Proofs.EditProofs Proofs.CloneProofs
      Gen.Universe Gen.CloneTbl Gen.RestTbl.
@@ -149,6 +150,11 @@ Example C02_nonvacuous_attachment :
   sget (l_after (link fs)) 1%N = Some SNewLine /\ sget (l_before (link fs)) 2%N = Some SNewLine.
 Proof. vm_compute. repeat split; reflexivity. Qed.
 
+(* RestoreFile after updateImports, statement by statement (pinned text, regenerated on every run):
+   the comments of the file are collected before the deferred Extras pass, so what that pass restores outside the tree (a deleted declaring element) contributes no comment *)
+Theorem C02_restorefile_collects_comments_before_the_extras_pass : restorefile_finishes_as_the_model = true.
+Proof. vm_compute. reflexivity. Qed.
+
 Print Assumptions C02_trailing_comment_goes_to_end.
 Print Assumptions C02_leading_comments_go_to_start.
 Print Assumptions C02_separator_becomes_spacing.
@@ -158,3 +164,4 @@ Print Assumptions C02_edit_commutes_with_rendering.
 Print Assumptions C02_segment_depends_on_subtree_only.
 Print Assumptions C02_segment_relocatable.
 Print Assumptions C02_uniform_separator_sets_the_flag.
+Print Assumptions C02_restorefile_collects_comments_before_the_extras_pass.
